@@ -862,7 +862,7 @@ func c32Exec(v c32Vec) *c32Res {
 		hr.Header.Set(h[0], h[1])
 	}
 	res := &c32Res{Granted: map[string]bool{}}
-	resp, err := w.app.Test(hr, 30000)
+	resp, err := w.app.Test(hr, -1)
 	if err != nil {
 		ev.Unbound(fmt.Sprintf("C32: request %s: %v", v, err))
 	}
